@@ -8,6 +8,7 @@ import (
 	"bytes"
 	"crypto/cipher"
 	"crypto/rand"
+	"crypto/x509/pkix"
 	"fmt"
 	"math/big"
 	"net"
@@ -45,7 +46,7 @@ func TestMain(m *testing.M) {
 	if os.Getenv("C20_CHILD") != "" {
 		os.Exit(firstUseChild(os.Getenv("C20_CHILD")))
 	}
-	R.Require("op:cache", "op:sm4_block", "op:sm3", "op:sm2_sign", "op:sm2_verify", "op:sm2_decrypt", "op:x509_verify", "op:pkcs7_ber", "op:sm4_mode", "goroutines>=16", "first_use", "shared_config_gm", "shared_config_tls", "conn_multi_writer", "conn_multi_reader", "conn_close_concurrent", "rotation_concurrent", "cache_multikey_warm")
+	R.Require("op:cache", "op:sm4_block", "op:sm3", "op:sm2_sign", "op:sm2_verify", "op:sm2_decrypt", "op:x509_verify", "op:pkcs7_ber", "op:sm4_mode", "goroutines>=16", "first_use", "shared_config_gm", "shared_config_tls", "conn_multi_writer", "conn_multi_reader", "conn_close_concurrent", "rotation_concurrent", "cache_multikey_warm", "conn_hostile_record")
 	hx.Main(m, R)
 }
 
@@ -189,6 +190,36 @@ func prepare(t *rapid.T) *material {
 		c.pool.AddCert(p.ECRoot.Cert)
 		for _, id := range []*tlsx.Ident{p.SrvSign, p.SrvEnc, p.SrvSignBad, p.SrvSignExpired, p.Client, p.RSASrv, p.ECSrv, p.ClientUntrusted} {
 			c.certs, c.certDER = append(c.certs, id.Cert), append(c.certDER, id.DER)
+		}
+		// a CA that was re-issued three times (same name, key and subject key identifier), a namesake CA with another
+		// key and no key identifier, and leaves that name the key identifier: lookups then combine the pool's
+		// by-key-identifier and by-name indexes, which concurrent verifications share
+		mk := func(serial int64, cn string, ski, aki []byte, pub *sm2.PublicKey, signer *sm2.PrivateKey, ca bool, issuerCN string) *gx.Certificate {
+			tpl := &gx.Certificate{SerialNumber: big.NewInt(serial), Subject: pkix.Name{CommonName: cn}, NotBefore: tlsx.Now.Add(-time.Hour), NotAfter: tlsx.Now.Add(time.Hour),
+				SignatureAlgorithm: gx.SM2WithSM3, BasicConstraintsValid: ca, IsCA: ca, SubjectKeyId: ski, DNSNames: []string{tlsx.ServerName}}
+			parent := &gx.Certificate{Subject: pkix.Name{CommonName: issuerCN}, SubjectKeyId: aki}
+			der, err := gx.CreateCertificate(tpl, parent, pub, signer)
+			if err != nil {
+				panic(err)
+			}
+			crt, err := gx.ParseCertificate(der)
+			if err != nil {
+				panic(err)
+			}
+			return crt
+		}
+		ka := sm2x.Priv(gen.Key{D: big.NewInt(777001), Pub: rsm2.Std.BaseMul(big.NewInt(777001))})
+		kb := sm2x.Priv(gen.Key{D: big.NewInt(777002), Pub: rsm2.Std.BaseMul(big.NewInt(777002))})
+		kl := sm2x.Priv(gen.Key{D: big.NewInt(777003), Pub: rsm2.Std.BaseMul(big.NewInt(777003))})
+		skiA := []byte{0xA1, 0xA2, 0xA3, 0xA4}
+		for i := int64(0); i < 3; i++ {
+			c.pool.AddCert(mk(9100+i, "Multi CA", skiA, skiA, &ka.PublicKey, ka, true, "Multi CA"))
+		}
+		c.pool.AddCert(mk(9110, "Multi CA", nil, nil, &kb.PublicKey, kb, true, "Multi CA"))
+		for i := int64(0); i < 2; i++ {
+			leafA := mk(9120+i, fmt.Sprint("multi leaf a", i), nil, skiA, &kl.PublicKey, ka, false, "Multi CA")
+			leafB := mk(9130+i, fmt.Sprint("multi leaf b", i), nil, nil, &kl.PublicKey, kb, false, "Multi CA")
+			c.certs, c.certDER = append(c.certs, leafA, leafB), append(c.certDER, leafA.Raw, leafB.Raw)
 		}
 		for i := 0; i < len(c.certs)*3; i++ {
 			c.verWant = append(c.verWant, describeChains(c.certs[i/3].Verify(verifyOpts(c, i))))
@@ -392,7 +423,7 @@ func TestC20_Workloads(t *testing.T) {
 				if k == "" || gen.OneIn(t, "other", 4) {
 					k = rapid.SampledFrom(opKinds).Draw(t, "kind")
 				}
-				plans[g] = append(plans[g], op{Kind: k, Arg: rapid.IntRange(0, 23).Draw(t, "arg"), Sel: rapid.IntRange(0, 200).Draw(t, "sel"), Yld: rapid.Bool().Draw(t, "yield")})
+				plans[g] = append(plans[g], op{Kind: k, Arg: rapid.IntRange(0, 71).Draw(t, "arg"), Sel: rapid.IntRange(0, 200).Draw(t, "sel"), Yld: rapid.Bool().Draw(t, "yield")})
 			}
 			seen := map[string]bool{}
 			for _, o := range plans[g] {
@@ -921,6 +952,7 @@ func TestC20_ConnOps(t *testing.T) {
 		multiReader := rapid.Bool().Draw(t, "multiReader")
 		var nW, nR [2]int
 		var closeSide, closeAfter int
+		inject := false
 		if multiReader {
 			// one writer per direction (the stream is then known exactly), several readers, Close at the end
 			nW = [2]int{1, rapid.IntRange(0, 1).Draw(t, "w1")}
@@ -931,6 +963,9 @@ func TestC20_ConnOps(t *testing.T) {
 			nR = [2]int{1, 1}
 			closeSide = rapid.IntRange(0, 1).Draw(t, "closeSide")
 			closeAfter = rapid.IntRange(-1, 6).Draw(t, "closeAfter") // -1: after every writer has finished
+			// a hostile peer: before the Close, a record header announcing more than 2^14+2048 bytes is injected into
+			// the inbound stream of the closing side, whose reader then raises a fatal alert while its writers are busy
+			inject = closeAfter >= 0 && gen.OneIn(t, "inject", 3)
 		}
 		observers := rapid.IntRange(0, 2).Draw(t, "observers")
 		plans := [2][][]*wmsg{}
@@ -955,7 +990,7 @@ func TestC20_ConnOps(t *testing.T) {
 				rbufs[side] = append(rbufs[side], rbuf())
 			}
 		}
-		desc := fmt.Sprintf("mode=%s writers=%v readers=%v readbufs=%v closeSide=%d closeAfter=%d observers=%d", mode, nW, nR, rbufs, closeSide, closeAfter, observers)
+		desc := fmt.Sprintf("mode=%s writers=%v readers=%v readbufs=%v closeSide=%d closeAfter=%d inject=%v observers=%d", mode, nW, nR, rbufs, closeSide, closeAfter, inject, observers)
 
 		t0 := time.Now()
 		defer func() {
@@ -964,6 +999,7 @@ func TestC20_ConnOps(t *testing.T) {
 			}
 		}()
 		c0, c1 := net.Pipe()
+		raws := [2]net.Conn{c0, c1}
 		conns := [2]*gmtls.Conn{gmtls.Client(c0, cc), gmtls.Server(c1, sc)}
 		var hs sync.WaitGroup
 		var hsErr [2]error
@@ -1107,6 +1143,11 @@ func TestC20_ConnOps(t *testing.T) {
 						}
 					}
 					concurrentClose = true
+					if inject {
+						v := st0.Version
+						raws[1-closeSide].Write([]byte{23, byte(v >> 8), byte(v), 0x48, 0x01}) // length 18433
+						runtime.Gosched()
+					}
 				} else {
 					writersDone[0].Wait()
 					writersDone[1].Wait()
@@ -1116,6 +1157,11 @@ func TestC20_ConnOps(t *testing.T) {
 							<-drained[side]
 						}
 					}
+				}
+				if inject {
+					// both readers may already have stopped on the fatal alert; on an unbuffered pipe a close_notify would
+					// then wait for a reader that no longer exists, so the transport is cut first (as a reset would)
+					raws[closeSide].Close()
 				}
 				conns[closeSide].Close()
 				// the other side finishes its writers (they fail or complete), then closes too
@@ -1213,6 +1259,9 @@ func TestC20_ConnOps(t *testing.T) {
 		}
 		if concurrentClose {
 			cl = append(cl, "conn_close_concurrent")
+		}
+		if inject {
+			cl = append(cl, "conn_hostile_record")
 		}
 		R.Case(true, hx.HashKey("conn", desc, fmt.Sprint(issued)), cl...)
 		R.Sample("conn_ops", desc)
